@@ -28,6 +28,7 @@ import (
 	"github.com/nspcc-dev/neo-go/pkg/crypto/keys"
 	"github.com/nspcc-dev/neo-go/pkg/smartcontract"
 	netmaprpc "github.com/nspcc-dev/neofs-contract/rpc/netmap"
+	"github.com/nspcc-dev/neofs-node/pkg/innerring/processors/netmap/nodevalidation"
 	"github.com/nspcc-dev/neofs-node/pkg/innerring/processors/netmap/nodevalidation/locode"
 	statev "github.com/nspcc-dev/neofs-node/pkg/innerring/processors/netmap/nodevalidation/state"
 	"github.com/nspcc-dev/neofs-node/pkg/innerring/processors/netmap/nodevalidation/structure"
@@ -106,145 +107,213 @@ func runHandler(e *irsetup.Env, p *neoproxy.Proxy, call func()) {
 	}
 }
 
+// scriptedValidator is a harness-owned validator whose verdict can change
+// between requests (stands for the external / private-domain / availability
+// verdicts that depend on the outside world).
+type scriptedValidator struct {
+	mu     sync.Mutex
+	reject bool
+}
+
+var errScripted = errors.New("harness: scripted validator says no")
+
+func (v *scriptedValidator) set(reject bool) { v.mu.Lock(); v.reject = reject; v.mu.Unlock() }
+func (v *scriptedValidator) Verify(netmap.NodeInfo) error {
+	v.mu.Lock()
+	defer v.mu.Unlock()
+	if v.reject {
+		return errScripted
+	}
+	return nil
+}
+
+type addNodeReq struct {
+	NodeKey     int
+	ScriptFault string
+	Addr        string
+	SecondAddr  bool
+	Locode      string
+	Price       int
+	State       string // membership state of the inner ring node
+	Scripted    string
+}
+
 func TestC38AddNode(t *testing.T) {
 	rec := ev.New("C38", "add-node")
 	defer rec.Flush()
 	w := getChain()
 	env, proxy := w.Member, w.MemberProxy
 	h := findHandler(env, "netmap/addNode")
-	errScripted := errors.New("harness: scripted validator says no")
+
+	// The processor consults ONE real CompositeValidator for its whole life, as wired by
+	// innerring.New: real state / structure / LOCODE validators plus the scripted one.
+	scripted := &scriptedValidator{}
+	composite := nodevalidation.New(statev.New(), structure.New(), locode.New(), scripted)
+	env.F.Validator.Set(nil, composite.Verify)
+	vals := []struct {
+		name string
+		f    func(netmap.NodeInfo) error
+	}{{"state", statev.New().Verify}, {"structure", structure.New().Verify}, {"locode", locode.New().Verify}, {"scripted", scripted.Verify}}
 
 	rapid.Check(t, func(t *rapid.T) {
-		nodeKey := irfix.Key(byte(130 + rapid.IntRange(0, 3).Draw(t, "nodeKey")))
-		scriptFault := rapid.SampledFrom([]string{"", "", "", "foreign-invoker", "offline-state", "maintenance-state"}).Draw(t, "scriptFault")
-		invoker := nodeKey
-		if scriptFault == "foreign-invoker" {
-			invoker = irfix.Key(140)
-		}
-		node := &netmaprpc.NetmapNode2{Key: nodeKey.PublicKey(), State: netmaprpc.NodeStateOnline, Attributes: map[string]string{}}
-		switch scriptFault {
-		case "offline-state":
-			node.State = netmaprpc.NodeStateOffline
-		case "maintenance-state":
-			node.State = netmaprpc.NodeStateMaintenance
-		}
-		// descriptor content judged by the real validators
-		addr := rapid.SampledFrom([]string{"/ip4/10.0.0.1/tcp/8080", "/ip4/10.0.0.1/tcp/8080", "/dns4/node/tcp/80/tls", "/ip4/10.0.0.1/udp/1", "/ip4/10.0.0.1", "grpcs://node:8082"}).Draw(t, "addr")
-		node.Addresses = []string{addr}
-		if rapid.Bool().Draw(t, "secondAddr") {
-			node.Addresses = append(node.Addresses, "/ip4/10.0.0.2/tcp/8080")
-		}
-		loc := rapid.SampledFrom([]string{"", "", "ok", "wrong-country", "unknown"}).Draw(t, "locode")
-		switch loc {
-		case "ok":
-			node.Attributes = map[string]string{"UN-LOCODE": "SE STO", "CountryCode": "SE", "Country": "Sweden", "Location": "Stockholm", "Continent": "Europe", "SubDivCode": "AB", "SubDiv": "Stockholms län"}
-		case "wrong-country":
-			node.Attributes = map[string]string{"UN-LOCODE": "SE STO", "CountryCode": "SE", "Country": "Norway", "Location": "Stockholm", "Continent": "Europe", "SubDivCode": "AB", "SubDiv": "Stockholms län"}
-		case "unknown":
-			node.Attributes = map[string]string{"UN-LOCODE": "XX AAA"}
-		}
-		node.Attributes["Price"] = fmt.Sprint(rapid.IntRange(0, 9).Draw(t, "price"))
-		scripted := rapid.SampledFrom([]string{"accept", "accept", "reject"}).Draw(t, "scriptedValidator")
-		mode := rapid.SampledFrom([]string{"member", "member", "member", "non-member", "lookup-error"}).Draw(t, "state")
-
-		// the validator chain of the processor: real validators + a scripted one, first rejection wins
-		vals := []struct {
-			name string
-			f    func(netmap.NodeInfo) error
-		}{
-			{"state", statev.New().Verify}, {"structure", structure.New().Verify}, {"locode", locode.New().Verify},
-			{"scripted", func(netmap.NodeInfo) error {
-				if scripted == "reject" {
-					return errScripted
+		var (
+			history      []addNodeReq
+			approvedReqs []int
+			summary      []string
+			nontrivial   bool
+		)
+		steps := rapid.IntRange(1, 4).Draw(t, "requests")
+		for step := 0; step < steps; step++ {
+			var q addNodeReq
+			re := ""
+			if len(history) > 0 && rapid.IntRange(0, 2).Draw(t, "reannounce") > 0 {
+				src := rapid.IntRange(0, len(history)-1).Draw(t, "of")
+				if len(approvedReqs) > 0 && rapid.IntRange(0, 3).Draw(t, "ofApproved") > 0 {
+					src = approvedReqs[rapid.IntRange(0, len(approvedReqs)-1).Draw(t, "ofApprovedIdx")]
 				}
-				return nil
-			}},
-		}
-		env.F.Validator.Set(nil, func(ni netmap.NodeInfo) error {
-			for _, v := range vals {
-				if err := v.f(ni); err != nil {
-					return err
+				q = history[src]
+				// same key / addresses / attributes; what may change is the outside world and the request envelope
+				q.Scripted = rapid.SampledFrom([]string{"accept", "reject", "reject"}).Draw(t, "scriptedValidator")
+				q.ScriptFault = rapid.SampledFrom([]string{"", "", "", "foreign-invoker", "offline-state", "maintenance-state"}).Draw(t, "scriptFault")
+				q.State = rapid.SampledFrom([]string{"member", "member", "member", "non-member", "lookup-error"}).Draw(t, "state")
+				re = fmt.Sprintf("re(%d):", src)
+			} else {
+				q = addNodeReq{
+					NodeKey:     rapid.IntRange(0, 3).Draw(t, "nodeKey"),
+					ScriptFault: rapid.SampledFrom([]string{"", "", "", "foreign-invoker", "offline-state", "maintenance-state"}).Draw(t, "scriptFault"),
+					Addr:        rapid.SampledFrom([]string{"/ip4/10.0.0.1/tcp/8080", "/ip4/10.0.0.1/tcp/8080", "/dns4/node/tcp/80/tls", "/ip4/10.0.0.1/udp/1", "/ip4/10.0.0.1", "grpcs://node:8082"}).Draw(t, "addr"),
+					SecondAddr:  rapid.Bool().Draw(t, "secondAddr"),
+					Locode:      rapid.SampledFrom([]string{"", "", "ok", "wrong-country", "unknown"}).Draw(t, "locode"),
+					Price:       rapid.IntRange(0, 9).Draw(t, "price"),
+					Scripted:    rapid.SampledFrom([]string{"accept", "accept", "reject"}).Draw(t, "scriptedValidator"),
+					State:       rapid.SampledFrom([]string{"member", "member", "member", "non-member", "lookup-error"}).Draw(t, "state"),
 				}
 			}
-			return nil
-		})
+			history = append(history, q)
 
-		height, err := w.Admin.Height()
-		if err != nil {
-			t.Fatalf("harness: %v", err)
-		}
-		signers := env.Signers
-		signers.Invoker = invoker
-		req, err := irsetup.NewRequest(signers, env.C.Netmap, nmEvent.AddNodeNotaryEvent, rapid.Uint32().Draw(t, "nonce"), height+5, node)
-		if err != nil {
-			t.Fatalf("harness: %v", err)
-		}
-		event, err := nmEvent.ParseAddNodeNotary(req.Ev)
-		if err != nil {
-			t.Fatalf("harness: parser refused the request: %v", err)
-		}
-		env.F.State.Set(map[bool]int{true: 0, false: -1}[mode == "member"], mode == "lookup-error")
-
-		runHandler(env, proxy, func() { h.Call(event) })
-		writes := proxy.Writes()
-
-		// reference, evaluated independently on the descriptor the event carries
-		scriptValid := scriptFault == ""
-		var rejecting []string
-		allAccept := true
-		evNode := event.(nmEvent.AddNode).Node
-		if ni, err := nmEvent.Node2Info(&evNode); err != nil {
-			allAccept = false
-			rejecting = append(rejecting, "node2info")
-		} else {
-			for _, v := range vals {
-				if v.f(ni) != nil {
-					allAccept = false
-					rejecting = append(rejecting, v.name)
-				}
+			nodeKey := irfix.Key(byte(130 + q.NodeKey))
+			invoker := nodeKey
+			if q.ScriptFault == "foreign-invoker" {
+				invoker = irfix.Key(140)
 			}
-		}
-		member := mode == "member"
-		want := member && scriptValid && allAccept
+			node := &netmaprpc.NetmapNode2{Key: nodeKey.PublicKey(), State: netmaprpc.NodeStateOnline, Attributes: map[string]string{}}
+			switch q.ScriptFault {
+			case "offline-state":
+				node.State = netmaprpc.NodeStateOffline
+			case "maintenance-state":
+				node.State = netmaprpc.NodeStateMaintenance
+			}
+			node.Addresses = []string{q.Addr}
+			if q.SecondAddr {
+				node.Addresses = append(node.Addresses, "/ip4/10.0.0.2/tcp/8080")
+			}
+			switch q.Locode {
+			case "ok":
+				node.Attributes = map[string]string{"UN-LOCODE": "SE STO", "CountryCode": "SE", "Country": "Sweden", "Location": "Stockholm", "Continent": "Europe", "SubDivCode": "AB", "SubDiv": "Stockholms län"}
+			case "wrong-country":
+				node.Attributes = map[string]string{"UN-LOCODE": "SE STO", "CountryCode": "SE", "Country": "Norway", "Location": "Stockholm", "Continent": "Europe", "SubDivCode": "AB", "SubDiv": "Stockholms län"}
+			case "unknown":
+				node.Attributes = map[string]string{"UN-LOCODE": "XX AAA"}
+			}
+			node.Attributes["Price"] = fmt.Sprint(q.Price)
+			scripted.set(q.Scripted == "reject")
+			mode := q.State
 
-		labels := []string{mode, "script-" + map[bool]string{true: "valid", false: scriptFault}[scriptValid]}
-		if allAccept {
-			labels = append(labels, "validators-accept")
-		} else {
-			labels = append(labels, "rejected-by-"+strings.Join(rejecting, "+"))
-		}
-		if want {
-			labels = append(labels, "approval-expected")
-		}
-		nontrivial := member && (scriptValid != allAccept || want)
-		rec.Case(nontrivial, fmt.Sprintf("%s|%s|%s|%s|%s|%d", mode, scriptFault, addr, loc, scripted, len(node.Addresses)), labels...)
-		if rec.WantSample() {
-			rec.Sample(map[string]any{"state": mode, "scriptFault": scriptFault, "addr": node.Addresses, "locode": loc, "scripted": scripted, "approved": len(writes)})
-		}
-
-		approved := 0
-		for _, wr := range writes {
-			nr, err := wr.NotaryRequest()
+			height, err := w.Admin.Height()
 			if err != nil {
-				t.Fatalf("unexpected write %s", wr.Method)
+				t.Fatalf("harness: %v", err)
 			}
-			if nr.MainTransaction.Hash() != req.Req.MainTransaction.Hash() {
-				t.Fatalf("a notary request for ANOTHER main transaction was sent: script %x", nr.MainTransaction.Script)
+			signers := env.Signers
+			signers.Invoker = invoker
+			req, err := irsetup.NewRequest(signers, env.C.Netmap, nmEvent.AddNodeNotaryEvent, rapid.Uint32().Draw(t, "nonce"), height+5, node)
+			if err != nil {
+				t.Fatalf("harness: %v", err)
 			}
-			approved++
+			event, err := nmEvent.ParseAddNodeNotary(req.Ev)
+			if err != nil {
+				t.Fatalf("harness: parser refused the request: %v", err)
+			}
+			env.F.State.Set(map[bool]int{true: 0, false: -1}[mode == "member"], mode == "lookup-error")
+			callsBefore := env.F.Validator.NCalls()
+
+			runHandler(env, proxy, func() { h.Call(event) })
+			writes := proxy.Writes()
+
+			// reference, evaluated independently, right now, on the descriptor the event carries
+			scriptValid := q.ScriptFault == ""
+			var rejecting []string
+			allAccept := true
+			evNode := event.(nmEvent.AddNode).Node
+			if ni, err := nmEvent.Node2Info(&evNode); err != nil {
+				allAccept = false
+				rejecting = append(rejecting, "node2info")
+			} else {
+				for _, v := range vals {
+					if v.f(ni) != nil {
+						allAccept = false
+						rejecting = append(rejecting, v.name)
+					}
+				}
+			}
+			member := mode == "member"
+			want := member && scriptValid && allAccept
+
+			approved := 0
+			for _, wr := range writes {
+				nr, err := wr.NotaryRequest()
+				if err != nil {
+					t.Fatalf("unexpected write %s", wr.Method)
+				}
+				if nr.MainTransaction.Hash() != req.Req.MainTransaction.Hash() {
+					t.Fatalf("a notary request for ANOTHER main transaction was sent: script %x", nr.MainTransaction.Script)
+				}
+				approved++
+			}
+			summary = append(summary, fmt.Sprintf("%s%+v->%d", re, q, approved))
+			if member && (scriptValid != allAccept || want) {
+				nontrivial = true
+			}
+			labels := []string{mode, "script-" + map[bool]string{true: "valid", false: q.ScriptFault}[scriptValid]}
+			if allAccept {
+				labels = append(labels, "validators-accept")
+			} else {
+				labels = append(labels, "rejected-by-"+strings.Join(rejecting, "+"))
+			}
+			if want {
+				labels = append(labels, "approval-expected")
+			}
+			if re != "" {
+				labels = append(labels, "re-announcement")
+				for _, a := range approvedReqs {
+					if fmt.Sprintf("re(%d):", a) == re && !want {
+						labels = append(labels, "re-announcement-of-approved-must-be-refused")
+					}
+				}
+			}
+			for _, l := range labels {
+				rec.Label(l)
+			}
+
+			if approved > 0 && !want {
+				t.Fatalf("node admission approved although it must not be: state=%s scriptValid=%v (fault %q) rejecting validators=%v\nnode %+v\nhistory: %s", mode, scriptValid, q.ScriptFault, rejecting, node, strings.Join(summary, " | "))
+			}
+			if want && approved != 1 && envTrouble(env.LastLogs) {
+				rec.Label("env-rpc-timeout")
+				continue
+			}
+			if want && approved != 1 {
+				t.Fatalf("valid request accepted by every validator in alphabet state: %d approvals recorded (want 1); RPCs: %s\nhistory: %s", approved, neoproxy.Describe(proxy.Calls()), strings.Join(summary, " | "))
+			}
+			if scriptValid && member && env.F.Validator.NCalls()-callsBefore != 1 {
+				t.Fatalf("validators consulted %d times for a request with a valid script", env.F.Validator.NCalls()-callsBefore)
+			}
+			if approved > 0 {
+				approvedReqs = append(approvedReqs, step)
+			}
 		}
-		if approved > 0 && !want {
-			t.Fatalf("node admission approved although it must not be: state=%s scriptValid=%v (fault %q) rejecting validators=%v\nnode %+v", mode, scriptValid, scriptFault, rejecting, node)
-		}
-		if want && approved != 1 && envTrouble(env.LastLogs) {
-			rec.Label("env-rpc-timeout")
-			return
-		}
-		if want && approved != 1 {
-			t.Fatalf("valid request accepted by every validator in alphabet state: %d approvals recorded (want 1); RPCs: %s", approved, neoproxy.Describe(proxy.Calls()))
-		}
-		if scriptValid && member && env.F.Validator.NCalls() != 1 {
-			t.Fatalf("validators consulted %d times for a request with a valid script", env.F.Validator.NCalls())
+		rec.Case(nontrivial, strings.Join(summary, " | "))
+		if rec.WantSample() {
+			rec.Sample(summary)
 		}
 	})
 }
